@@ -172,6 +172,32 @@ package xmpp
 //@     after: lastErr = ret0
 //@   ensures[C08] lastErr != nil && lastErr != io.EOF ==> err != nil
 
+// ---------------------------------------------------------------------------
+// C12: resource binding carries exactly the requested and assigned addresses
+
+// the <resource/> child carries the requested resourcepart, byte for byte
+//@ func (bindPayload).TokenReader$1
+//@   ensures[C12] typeof(result0) == xml.CharData && len(result0.(xml.CharData)) == len(bp.Resource)
+//@   ensures[C12] forall i int :: 0 <= i && i < len(bp.Resource) ==> result0.(xml.CharData)[i] == bp.Resource[i]
+
+// Negotiation closure of the bind feature. Initiator: asks for the
+// resourcepart of its own address and adopts the returned address only from a
+// result IQ carrying the request id. Ready is never reported with an error.
+//@ func bind$3
+//@   ghost updated bool = false
+//@   callsite (*Session).UpdateAddr#1
+//@     assert[C12] resp.ID == reqID && resp.Type == "result" && arg1 == resp.Bind.JID
+//@     after: updated = true
+//@   ghost want string
+//@   callsite (mellium.im/xmpp/jid.JID).Resourcepart#1
+//@     after: want = ret0
+//@   callsite (*bindIQ).WriteXML#2
+//@     assert[C12] arg0.Bind.Resource == want && arg0.IQ.Type == "set" && arg0.IQ.ID == reqID
+//@   ghost st0 SessionState
+//@   callsite (*Session).State#1
+//@     after: st0 = ret0
+//@   ensures[C12] result0 & Ready != 0 && st0 & Received == 0 ==> updated && result2 == nil
+
 // BEGIN enrolment C09 (generated by the safety sweep: every safety obligation of these functions is discharged)
 //@ nopanic [C09] (*Session).Close
 //@ nopanic [C09] (*Session).Conn
